@@ -570,7 +570,7 @@ def evaluate_case(c, hl, ml, verdict, counts=None):
                             "areLPsInSync(true,true) returns %s after %s, a re-evaluation of its code on the observed LPs gives %s" % (ho.extras["sync"], name, want),
                             {"ops": ops[1:j + 1], "implementation": hl[j][:3000]}, True)
             if ho.mode == 1 and any(k == "drift" for k, _ in fails) and ho.extras["sync"] == "1" and drift_failures(ho, modulo_inf=True):
-                verdict.add("areLPsInSync:blind",
+                verdict.add("areLPsInSync:blind:" + drift_failures(ho, modulo_inf=True)[0].split("[")[0],
                             "areLPsInSync(true,true) returns true after %s although the LPs differ (%s)" % (name, drift_failures(ho, modulo_inf=True)[:3]),
                             {"ops": ops[1:j + 1], "implementation": hl[j][:3000]})
         if fails and tainted is None:
